@@ -20,18 +20,20 @@ type EVal struct {
 }
 
 type Env struct {
-	u        *Unit
-	st       *State
-	old      *State
-	fr       *Frame
-	oldFr    *Frame
-	vars     map[string]EVal
-	pkg      *types.Package
-	fn       *ssa.Function
-	assuming bool
-	key      string // clause key for skolem names
-	freshLo  int    // objects with aid > freshLo were allocated since `old`
-	depth    int
+	u              *Unit
+	st             *State
+	old            *State
+	fr             *Frame
+	oldFr          *Frame
+	vars           map[string]EVal
+	pkg            *types.Package
+	fn             *ssa.Function
+	assuming       bool
+	key            string // clause key for skolem names
+	freshLo        int    // objects with aid > freshLo were allocated since `old`
+	depth          int
+	keepUniversals bool
+	target         *State // state that records universals (the live path state)
 }
 
 func (e *Env) with(vars map[string]EVal) *Env {
@@ -229,6 +231,25 @@ func (e *Env) evalLazy(x Expr) EVal {
 			for _, t := range insts {
 				v := e.with(map[string]EVal{x.Var: {T: t, Ty: ty}}).eval(x.Body)
 				out = append(out, v.T)
+			}
+			if e.keepUniversals && e.st != nil {
+				// remember the fact: it is instantiated again at terms created later
+				// (iteration keys), against the state it was assumed in
+				snap := *e
+				body := x.Body
+				vname := x.Var
+				e.target.Universals = append(e.target.Universals, universal{sort: so, inst: func(t Term) (res Term, ok bool) {
+					defer func() {
+						if r := recover(); r != nil {
+							if _, isEval := r.(evalError); !isEval {
+								panic(r)
+							}
+							ok = false
+						}
+					}()
+					v := snap.with(map[string]EVal{vname: {T: t, Ty: ty}}).eval(body)
+					return v.T, v.T.Sort == SBool
+				}})
 			}
 			return EVal{T: And(out...)}
 		}
@@ -670,6 +691,15 @@ func (e *Env) call(x ECall) EVal {
 		}
 		l := App("vlen", SInt, v.T)
 		u.Axiom(Ge(l, IntLit(0)))
+		if v.Ty != nil {
+			if sl, ok := v.Ty.Underlying().(*types.Slice); ok {
+				sz := types.SizesFor("gc", "amd64").Sizeof(sl.Elem())
+				if sz < 1 {
+					sz = 1
+				}
+				u.Axiom(Le(Mul(l, IntLit(sz)), maxInt))
+			}
+		}
 		return EVal{T: l, Ty: types.Typ[types.Int]}
 	case "cap":
 		v := arg(0)
